@@ -1243,6 +1243,77 @@ class Tracer:
                 tr.bindings.update(self_.saved)
         return _Ctx()
 
+    def closure_callees(self, node):
+        """[(closure body, binding context)] when `node` is `Fn*::call*(f, (a, b, ..))` and every possible `f` is a
+        closure built in the workspace (possibly passed down as a generic parameter from several call sites): the
+        closure's parameters stand for a, b, ..; None when some callee is not such a closure"""
+        if node[0] != "call":
+            return None
+        c = self.call_of(node)
+        if c.def_ not in ("core::ops::function::Fn::call", "core::ops::function::FnMut::call_mut", "core::ops::function::FnOnce::call_once") or len(c.args) != 2:
+            return None
+        f = self.expand(self.operand(c.g.b, c.args[0], c.loc), upvars=True, params=True)
+        cls = []
+        for lf in leaves(f):
+            lf = peel(lf)
+            guard = 0
+            while lf[0] in ("ref", "deref", "param", "upvar") and guard < 8:
+                if lf[0] in ("param", "upvar"):
+                    e = self.expand(lf, upvars=True, params=True)
+                    if e == lf:
+                        break
+                    sub = [peel(x) for x in leaves(e)]
+                    if len(sub) != 1:
+                        # several call sites: handle each alternative
+                        lf = ("phi", tuple(sub))
+                        break
+                    lf = sub[0]
+                else:
+                    lf = peel(lf[1])
+                guard += 1
+            alts = list(lf[1]) if lf[0] == "phi" else [lf]
+            for alt in alts:
+                alt = peel(alt)
+                g2 = 0
+                while alt[0] in ("ref", "deref") and g2 < 6:
+                    alt = peel(alt[1])
+                    g2 += 1
+                if alt[0] == "agg":
+                    b2, rv = self.agg_of(alt)
+                    if rv.get("ak") == "closure":
+                        if rv["def"] not in cls:
+                            cls.append(rv["def"])
+                        continue
+                return None
+        if not cls:
+            return None
+        tup = peel(self.expand(self.operand(c.g.b, c.args[1], c.loc), upvars=True))
+        tr = self
+        out = []
+        for cl in cls:
+            child = self.facts.bodies.get(cl)
+            if child is None:
+                return None
+            new = {}
+            if tup[0] == "agg":
+                tb, trv = self.agg_of(tup)
+                for k, o in enumerate(trv["ops"]):
+                    new[("param", child.crate.name, child.def_, k + 2)] = self.expand(self.operand(tb, o, (tup[3], tup[4])), upvars=True)
+
+            class _Ctx:
+                def __init__(self_, new_):
+                    self_.new = new_
+
+                def __enter__(self_):
+                    self_.saved = dict(tr.bindings)
+                    tr.bindings.update(self_.new)
+
+                def __exit__(self_, *a):
+                    tr.bindings.clear()
+                    tr.bindings.update(self_.saved)
+            out.append((child, _Ctx(new)))
+        return out
+
     def helper_returns(self, hb):
         """origins of the values a helper returns (whole assignments to _0 and call results into _0)"""
         out = []
